@@ -1,6 +1,8 @@
 /-
 The full edit alphabet of C16: the six positional / attribute edits of C03 (`Op`) plus tag
-edits (`add_tag`, `remove_tag`, `clear_tags`, `set_tags`), `materialize_defaults` and `assign`.
+edits (`add_tag`, `remove_tag`, `clear_tags`, `set_tags`), `materialize_defaults`, `assign`,
+`copy_with` (followed on the copy) and `update_callable` (which switches the signature the
+later operations are interpreted against).
 
 A predicate closed under the two logging hooks of the argument store AND under a logged update
 of one tag set (`Cfg.ClosedT`) is preserved by every such operation, hence by every history.
@@ -17,6 +19,8 @@ structure Cfg.ClosedT (P : Cfg → Prop) : Prop where
     P (({ c with tags := c.tags.set k ts } : Cfg).log k (.tags ts))
   /-- one more UPDATE_TAGS entry carrying the current tag set (`set_tags`' last step) -/
   logTags : ∀ (c : Cfg) (k : Key), P c → P (c.log k (.tags (c.tagsOf k)))
+  /-- the `__fn_or_cls__` entry of `update_callable` -/
+  logFn : ∀ (c : Cfg), P c → P (c.log (.name "__fn_or_cls__") (.val (.v 0)))
 
 inductive Op2
   | edit (o : Op)
@@ -26,24 +30,30 @@ inductive Op2
   | setTags (k : Key) (ts : List Nat)
   | materialize
   | assign (kvs : List (String × Val))
+  | copyWith (kvs : List (String × Val))
+  | updateCallable (newSig : Sig) (drop : Bool)
 
-def Cfg.applyOp2 (s : Sig) (c : Cfg) : Op2 → Except Err Cfg
-  | .edit o => c.applyOp s o
-  | .addTag k t => c.addTag s k t
-  | .removeTag k t => c.removeTag s k t
-  | .clearTags k => c.clearTags s k
-  | .setTags k ts => c.setTags s k ts
-  | .materialize => c.materializeDefaults s
-  | .assign kvs => .ok (c.assignAll s kvs)
+def Cfg.applyOp2 (s : Sig) (c : Cfg) : Op2 → Except Err (Sig × Cfg)
+  | .edit o => (c.applyOp s o).map (fun c' => (s, c'))
+  | .addTag k t => (c.addTag s k t).map (fun c' => (s, c'))
+  | .removeTag k t => (c.removeTag s k t).map (fun c' => (s, c'))
+  | .clearTags k => (c.clearTags s k).map (fun c' => (s, c'))
+  | .setTags k ts => (c.setTags s k ts).map (fun c' => (s, c'))
+  | .materialize => (c.materializeDefaults s).map (fun c' => (s, c'))
+  | .assign kvs => .ok (s, c.assignAll s kvs)
+  -- `copy_with`: the edits are made on a shallow copy, which replaces the original in the
+  -- history only if every name is accepted (a failing `copy_with` leaves the original in use)
+  | .copyWith kvs => .ok (s, if c.assignOk s kvs then c.assignAll s kvs else c)
+  | .updateCallable ns drop => (Cfg.updateCallable ns c drop).map (fun c' => (ns, c'))
 
 /-- Running a history over the full alphabet; a rejected operation leaves the state as it was
     (`materialize_defaults` never is; a rejected `assign` keeps its earlier edits, see above). -/
-def Cfg.run2 (s : Sig) : Cfg → List Op2 → Cfg
-  | c, [] => c
-  | c, o :: r =>
-    match c.applyOp2 s o with
-    | .ok c' => Cfg.run2 s c' r
-    | .error _ => Cfg.run2 s c r
+def Cfg.run2 : Sig × Cfg → List Op2 → Sig × Cfg
+  | sc, [] => sc
+  | sc, o :: r =>
+    match sc.2.applyOp2 sc.1 o with
+    | .ok sc' => Cfg.run2 sc' r
+    | .error _ => Cfg.run2 sc r
 
 variable {P : Cfg → Prop}
 
@@ -126,31 +136,94 @@ theorem Cfg.assignAll_closed (hP : Cfg.Closed P) (s : Sig) : ∀ (kvs : List (St
     · rename_i c1 h1; exact ih c1 (Cfg.setAttr_closed hP h1 hc)
     · exact hc
 
-theorem Cfg.applyOp2_closed (hP : Cfg.ClosedT P) {s : Sig} {c c' : Cfg} {o : Op2}
-    (h : c.applyOp2 s o = .ok c') (hc : P c) : P c' := by
+theorem Cfg.dropArgs_closed (hP : Cfg.Closed P) (s : Sig) : ∀ (ns : List String) {c c' : Cfg},
+    Cfg.dropArgs s c ns = .ok c' → P c → P c' := by
+  intro ns
+  induction ns with
+  | nil => intro c c' h hc; simp [Cfg.dropArgs] at h; subst h; exact hc
+  | cons n r ih =>
+    intro c c' h hc
+    simp only [Cfg.dropArgs] at h
+    split at h
+    · rename_i c1 h1; exact ih h (Cfg.delAttr_closed (s := s) hP h1 hc)
+    · cases h
+
+theorem Cfg.updateCallable_closedT (hP : Cfg.ClosedT P) {ns : Sig} {c c' : Cfg} {drop : Bool}
+    (h : Cfg.updateCallable ns c drop = .ok c') (hc : P c) : P c' := by
+  unfold Cfg.updateCallable at h
+  split at h
+  · cases h
+  · simp only at h
+    generalize (if ns.hasVk = true then ([] : List String) else _) = inv at h
+    by_cases he : inv.isEmpty = true
+    · simp only [he, if_true] at h
+      cases h
+      exact hP.logFn c hc
+    · simp only [he, if_false, Bool.false_eq_true] at h
+      cases drop with
+      | false => simp at h
+      | true =>
+        simp only [if_true] at h
+        cases hd : Cfg.dropArgs ns c inv with
+        | error e => simp [hd] at h
+        | ok c1 =>
+          simp only [hd] at h
+          cases h
+          exact hP.logFn c1 (Cfg.dropArgs_closed hP.base ns inv hd hc)
+
+theorem map_ok {α β ε} {f : α → β} {x : Except ε α} {b : β} (h : x.map f = .ok b) :
+    ∃ a, x = .ok a ∧ f a = b := by
+  cases x with
+  | error e => simp [Except.map] at h
+  | ok a => simp [Except.map] at h; exact ⟨a, rfl, h⟩
+
+theorem Cfg.applyOp2_closed (hP : Cfg.ClosedT P) {s s' : Sig} {c c' : Cfg} {o : Op2}
+    (h : c.applyOp2 s o = .ok (s', c')) (hc : P c) : P c' := by
   cases o with
-  | edit o => exact Cfg.applyOp_closed hP.base h hc
-  | addTag k t => exact Cfg.addTag_closedT hP h hc
-  | removeTag k t => exact Cfg.removeTag_closedT hP h hc
-  | clearTags k => exact Cfg.clearTags_closedT hP h hc
-  | setTags k ts => exact Cfg.setTags_closedT hP h hc
-  | materialize => exact Cfg.materializeLoop_closed hP.base s _ _ _ h hc
+  | edit o =>
+    obtain ⟨a, ha, e⟩ := map_ok h; cases e
+    exact Cfg.applyOp_closed hP.base ha hc
+  | addTag k t =>
+    obtain ⟨a, ha, e⟩ := map_ok h; cases e
+    exact Cfg.addTag_closedT hP ha hc
+  | removeTag k t =>
+    obtain ⟨a, ha, e⟩ := map_ok h; cases e
+    exact Cfg.removeTag_closedT hP ha hc
+  | clearTags k =>
+    obtain ⟨a, ha, e⟩ := map_ok h; cases e
+    exact Cfg.clearTags_closedT hP ha hc
+  | setTags k ts =>
+    obtain ⟨a, ha, e⟩ := map_ok h; cases e
+    exact Cfg.setTags_closedT hP ha hc
+  | materialize =>
+    obtain ⟨a, ha, e⟩ := map_ok h; cases e
+    exact Cfg.materializeLoop_closed hP.base s _ _ _ ha hc
   | assign kvs =>
     simp only [Cfg.applyOp2] at h
     cases h
     exact Cfg.assignAll_closed hP.base s kvs c hc
+  | copyWith kvs =>
+    simp only [Cfg.applyOp2] at h
+    cases h
+    split
+    · exact Cfg.assignAll_closed hP.base s kvs c hc
+    · exact hc
+  | updateCallable ns drop =>
+    obtain ⟨a, ha, e⟩ := map_ok h; cases e
+    exact Cfg.updateCallable_closedT hP ha hc
 
 /-- A predicate closed under the hooks and tag updates holds after every history of edits over
     the full alphabet. -/
-theorem Cfg.run2_closed (hP : Cfg.ClosedT P) (s : Sig) (ops : List Op2) :
-    ∀ c, P c → P (Cfg.run2 s c ops) := by
+theorem Cfg.run2_closed (hP : Cfg.ClosedT P) (ops : List Op2) :
+    ∀ sc : Sig × Cfg, P sc.2 → P (Cfg.run2 sc ops).2 := by
   induction ops with
-  | nil => intro c hc; exact hc
+  | nil => intro sc hc; exact hc
   | cons o r ih =>
-    intro c hc
+    intro sc hc
     simp only [Cfg.run2]
     split
-    · rename_i c' h; exact ih c' (Cfg.applyOp2_closed hP h hc)
-    · exact ih c hc
+    · rename_i sc' h
+      exact ih sc' (Cfg.applyOp2_closed (s' := sc'.1) (c' := sc'.2) hP h hc)
+    · exact ih sc hc
 
 end Fiddle
